@@ -1043,6 +1043,30 @@ package ring
 //@   rowpre forall(k, 0, n, p0.Coeffs[L][k] < qL && p0.Coeffs[i][k] < q)
 //@   rowpost forall(k, 0, n, y < q && cong(y * qL, ai - aL, q)) by cong_scale(y*W, (aL - ai)*rc, qL, q); cong_scale(rc*qL, 0 - W, aL - ai, q); cong_trans(y*W*qL, (aL - ai)*rc*qL, (ai - aL)*W, q); cong_cancelW(y*qL, ai - aL, mc, (q*mc)/W, q)
 
+// ---- several divisions in a row: every division is made by the ring one level below the previous
+// ---- one, starting at the level of the receiver, on polynomials that have (at least) the rows of
+// ---- that level.  The contract is the chain of preconditions of the single divisions: a division by
+// ---- a ring of another level than the data (seed C02-6) does not meet them.
+//@ func Ring.AtLevel
+//@   property C02
+//@   assigns
+//@   requires 0 <= level && level <= len(r.SubRings) - 1
+//@   ensures result.level == level && same(result.SubRings, r.SubRings) && len(result.SubRings) == len(r.SubRings)
+//@   ensures same(result.RescaleConstants, r.RescaleConstants) && len(result.RescaleConstants) == len(r.RescaleConstants)
+//@ func Poly.Equal
+//@   trusted comparison of two polynomials: reads only
+//@   assigns
+//@ func Poly.Copy
+//@   trusted copy into the receiver (a value copy of the caller's polynomial header here): rows of the receiver are written
+//@   assigns pol.Coeffs
+//@ func Ring.DivFloorByLastModulusMany
+//@   property C02
+//@   requires 0 <= nbRescales && nbRescales <= r.level && r.level < len(r.SubRings)
+//@   requires r.level < len(p0.Coeffs) && r.level <= len(buff.Coeffs) && r.level - nbRescales < len(p1.Coeffs)
+//@   requires r.level <= len(r.RescaleConstants) && forall(l, 0, r.level, l + 1 <= len(r.RescaleConstants[l]))
+//@   loop 0 invariant 1 <= i && i <= nbRescales && rCpy.level == r.level - i && same(rCpy.SubRings, r.SubRings) && len(rCpy.SubRings) == len(r.SubRings)
+//@   loop 0 invariant same(rCpy.RescaleConstants, r.RescaleConstants) && len(rCpy.RescaleConstants) == len(r.RescaleConstants)
+
 // rounded division: the last row is centred by (q_L-1)/2 first, so the quotient is rounded half-up
 //@ func Ring.DivRoundByLastModulus
 //@   property C02 C09
